@@ -29,6 +29,9 @@ fn impl_fn(m: &Method, target: usize, deps: &[usize], generic_form: bool, vis: &
     let bname = |d: &usize| match d {
         3 => "GDep<i32>".to_string(),
         4 => "GDep<u8>".to_string(),
+        // two different leaf traits whose paths end in the same segment
+        5 => "pa::Leaf".to_string(),
+        6 => "pb::Leaf".to_string(),
         d => format!("Dep{d}"),
     };
     let bounds: Vec<String> = deps.iter().map(bname).collect();
@@ -65,6 +68,8 @@ fn impl_fn(m: &Method, target: usize, deps: &[usize], generic_form: bool, vis: &
         match d {
             3 => sum.push_str(" + <_ as GDep<i32>>::gdep(deps)"),
             4 => sum.push_str(" + <_ as GDep<u8>>::gdep(deps)"),
+            5 => sum.push_str(" + <_ as pa::Leaf>::leaf(deps)"),
+            6 => sum.push_str(" + <_ as pb::Leaf>::leaf(deps)"),
             d => sum.push_str(&format!(" + deps.dep{d}()")),
         }
     }
@@ -166,6 +171,7 @@ pub fn gen_case(t: &mut Tape, excl: &[usize]) -> Case {
         src.push_str(&format!("#[::entrait::entrait(pub Dep{d})]\nfn dep{d}(_deps: &impl Sized) -> u32 {{ {} }}\n", d + 1));
     }
     src.push_str("#[::entrait::entrait]\npub trait GDep<E> { fn gdep(&self) -> u32; }\n");
+    src.push_str("pub mod pa { #[::entrait::entrait]\npub trait Leaf { fn leaf(&self) -> u32; } }\npub mod pb { #[::entrait::entrait]\npub trait Leaf { fn leaf(&self) -> u32; } }\n");
     // trait and / or the first block may come out of a `macro_rules!` expansion in which one method has two parameters of
     // one spelling (one written in the macro, one passed in): different identifiers, told apart by their spans only
     let same_spelled: Option<(usize, usize, usize)> = methods.iter().enumerate().find_map(|(mi, m)| {
@@ -235,7 +241,7 @@ pub fn gen_case(t: &mut Tape, excl: &[usize]) -> Case {
             let nd = t.weighted(&[3, 3, 2, 1, 1]);
             let mut deps = vec![];
             for _ in 0..nd {
-                let d = t.choose(5);
+                let d = t.choose(7);
                 if !deps.contains(&d) {
                     deps.push(d);
                 }
@@ -282,7 +288,7 @@ pub fn gen_case(t: &mut Tape, excl: &[usize]) -> Case {
         }
     }
     for a in 0..n_apps {
-        src.push_str(&format!("impl GDep<i32> for A{a} {{ fn gdep(&self) -> u32 {{ 40 }} }}\nimpl GDep<u8> for A{a} {{ fn gdep(&self) -> u32 {{ 50 }} }}\n"));
+        src.push_str(&format!("impl GDep<i32> for A{a} {{ fn gdep(&self) -> u32 {{ 40 }} }}\nimpl GDep<u8> for A{a} {{ fn gdep(&self) -> u32 {{ 50 }} }}\nimpl pa::Leaf for A{a} {{ fn leaf(&self) -> u32 {{ 60 }} }}\nimpl pb::Leaf for A{a} {{ fn leaf(&self) -> u32 {{ 70 }} }}\n"));
     }
     src.push_str("pub fn run() -> Vec<String> {\n    let mut fails: Vec<String> = vec![];\n");
     for a in 0..n_apps {
